@@ -35,7 +35,7 @@ SELFTEST_TASK = ('perm', 0)
 
 def tasks(tier, seed):
     nkeys = 6 if tier == 'thorough' else 5
-    out = [('perm', i) for i in range(nkeys)] + [('subsets',), ('long',), ('twins',)]
+    out = [('perm', i) for i in range(nkeys)] + [('subsets',), ('long',), ('twins',), ('unordered',)]
     if tier == 'thorough':
         out += [('m',) + t for t in corpus.method_tasks(tier)]
     else:
@@ -282,6 +282,83 @@ def check_twins(ctx):
                         ctx.outcome('ok')
 
 
+def check_unordered(ctx):
+    """Collections other than dict and list as table values (sets, frozen
+    sets, dict views, dict subclasses, mapping proxies, tuples, deques): the
+    encoder need not accept them, but when it accepts two that compare EQUAL
+    and differ only in the order they were filled in, it must produce the
+    same bytes - at top level, nested, and through frame.marshal."""
+    import collections
+    import types
+    p = lib.pamqp()
+    # four elements: a CPython set of this size keeps its 8-slot table, where
+    # 0, 8 and 16 collide, so the iteration order follows the insertion order
+    elems = [0, 8, 16, 1]
+    perms = [elems, elems[::-1], [8, 16, 1, 0], [16, 0, 8, 1]]
+    pairs = [(k, 'v%s' % k) for k in ('z', 'a', 'm', 'B', 'é')]
+    porders = [pairs, pairs[::-1], pairs[2:] + pairs[:2]]
+
+    def builders():
+        yield 'set', [set(o) for o in perms]
+        yield 'frozenset', [frozenset(o) for o in perms]
+        yield 'dict keys view', [dict.fromkeys(o).keys() for o in perms]
+        yield 'dict items view', [dict(o).items() for o in porders]
+        yield 'OrderedDict', [collections.OrderedDict(o) for o in porders]
+        yield 'defaultdict', [collections.defaultdict(int, o)
+                              for o in porders]
+        yield 'mappingproxy', [types.MappingProxyType(dict(o))
+                               for o in porders]
+        yield 'Counter', [collections.Counter(dict((k, 1) for k, _v in o))
+                          for o in porders]
+        yield 'ChainMap', [collections.ChainMap(dict(o)) for o in porders]
+        yield 'dict subclass', [type('Sub', (dict,), {})(o) for o in porders]
+
+    for label, variants in builders():
+        first = variants[0]
+        for other in variants[1:]:
+            try:
+                equal = first == other
+            except Exception:  # noqa
+                equal = False
+            if not equal:
+                continue
+            for pos, wrap in (('value', lambda v: {'k': v}),
+                              ('nested', lambda v: {'t': {'n': [v]}, 'z': 1}),
+                              ('frame', None)):
+                ctx.case(('unordered', label, pos, repr(list(other))[:80]),
+                         True, sample=lambda: {
+                             'collection': label, 'position': pos,
+                             'orders': [short(list(first), 50),
+                                        short(list(other), 50)]})
+                try:
+                    if pos == 'frame':
+                        a = p.frame.marshal(p.commands.Queue.Declare(
+                            queue='q', arguments={'k': first}), 1)
+                        b = p.frame.marshal(p.commands.Queue.Declare(
+                            queue='q', arguments={'k': other}), 1)
+                    else:
+                        a = p.encode.field_table(wrap(first))
+                        b = p.encode.field_table(wrap(other))
+                    ctx.calls(2)
+                except Exception:  # noqa
+                    ctx.outcome('refused')
+                    continue
+                ctx.valid()
+                if a != b:
+                    ctx.violation(
+                        'unordered|{}|{}|{}'.format(label, pos,
+                                                    short(list(other), 60)),
+                        'two equal {} values filled in different orders ({} '
+                        'and {}) are both accepted at position {} but encode '
+                        'differently: {} / {}'.format(
+                            label, short(list(first), 60),
+                            short(list(other), 60), pos, a.hex()[:100],
+                            b.hex()[:100]), {'kind': 'unordered'},
+                        a.hex()[:300], b.hex()[:300])
+                else:
+                    ctx.outcome('ok')
+
+
 def check_frame_twice(ctx, label, build, marshal, case):
     """build() -> object; marshal(obj) -> bytes.  Twice + non-mutation, and a
     freshly built equal object encodes identically."""
@@ -349,6 +426,8 @@ def run(task, ctx):
         check_subsets(ctx)
     elif kind == 'long':
         check_long_keys(ctx)
+    elif kind == 'unordered':
+        check_unordered(ctx)
     elif kind == 'twins':
         check_twins(ctx)
     elif kind in ('m', 'm2'):
@@ -397,6 +476,8 @@ def replay(case, ctx):
         check_subsets(ctx)
     elif kind == 'long':
         check_long_keys(ctx)
+    elif kind == 'unordered':
+        check_unordered(ctx)
     elif kind == 'twins':
         check_twins(ctx)
     elif kind == 'method':
